@@ -100,6 +100,10 @@ fn contract_pending_inbound() {
     std::mem::forget(r);
 }
 
+fn any_role() -> Endpoint {
+    if kani::any() { Endpoint::Dialer } else { Endpoint::Listener }
+}
+
 #[kani::proof]
 #[kani::unwind(8)]
 fn contract_pending_outbound() {
@@ -109,7 +113,9 @@ fn contract_pending_outbound() {
     let had = b.pending_outbound_connections.contains(&id);
     let peer: Option<PeerId> = if kani::any() { Some(any_peer()) } else { None };
     let bypass = peer.map_or(false, |p| b.bypass_peer_id.contains(&p));
-    let r = b.handle_pending_outbound_connection(id, peer, &[], Endpoint::Dialer);
+    // the role override is a caller-chosen hint (hole punching dials as Listener): the
+    // limit on pending OUTGOING connections applies whatever it is
+    let r = b.handle_pending_outbound_connection(id, peer, &[], any_role());
     let c1 = counts(&b);
     if bypass {
         assert!(r.is_ok());
@@ -142,6 +148,8 @@ fn contract_established_then_event() {
     let id = any_id();
     let peer = any_peer();
     let a = Multiaddr::empty();
+    let role = any_role();
+    let port_use = if kani::any() { PortUse::Reuse } else { PortUse::New };
     let bypass = b.bypass_peer_id.contains(&peer);
     // the id is fresh (Swarm hands out unique ids, C03)
     kani::assume(!b.established_inbound_connections.contains(&id) && !b.established_outbound_connections.contains(&id));
@@ -151,7 +159,8 @@ fn contract_established_then_event() {
     let r = if inbound {
         b.handle_established_inbound_connection(id, peer, &a, &a).map(|_| ())
     } else {
-        b.handle_established_outbound_connection(id, peer, &a, Endpoint::Dialer, PortUse::Reuse).map(|_| ())
+        // an outbound connection is outbound whatever its role override / port use
+        b.handle_established_outbound_connection(id, peer, &a, role, port_use).map(|_| ())
     };
     // the pending entry of that id is released either way
     assert!(!b.pending_inbound_connections.contains(&id) || !inbound);
@@ -171,7 +180,7 @@ fn contract_established_then_event() {
         let endpoint = if inbound {
             ConnectedPoint::Listener { local_addr: a.clone(), send_back_addr: a.clone() }
         } else {
-            ConnectedPoint::Dialer { address: a.clone(), role_override: Endpoint::Dialer, port_use: PortUse::Reuse }
+            ConnectedPoint::Dialer { address: a.clone(), role_override: role, port_use }
         };
         b.on_swarm_event(FromSwarm::ConnectionEstablished(ConnectionEstablished {
             peer_id: peer,
